@@ -345,6 +345,14 @@ func constructMatchStyleRegex(s *Segment) (*regexp.Regexp, []string, error) {
 	}
 	buf.WriteString("$")
 
+	bindSet := make(map[string]struct{}, len(binds))
+	for _, bind := range binds {
+		if _, exists := bindSet[bind]; exists {
+			return nil, nil, errors.Errorf("duplicated bind parameter %q in position %d", bind, s.Pos.Offset)
+		}
+		bindSet[bind] = struct{}{}
+	}
+
 	re, err := regexp.Compile(buf.String())
 	if err != nil {
 		return nil, nil, errors.Wrapf(err, "compile regexp near position %d", s.Pos.Offset)
